@@ -27,7 +27,7 @@ pub struct SpecialCase {
 
 impl SpecialCase {
     pub fn is_special(f: &str) -> bool {
-        matches!(f, "Q2" | "Q2dense" | "Q4" | "Q8" | "QB" | "QM")
+        matches!(f, "Q2" | "Q2dense" | "Q4" | "Q8" | "QB" | "QM" | "QC")
     }
     pub fn generate(family: &str, seed: u64, index: u64) -> Self {
         let dense = family == "Q2dense";
@@ -68,6 +68,7 @@ impl SpecialCase {
             "Q4" => q4(self, ctx, &mut rng, &mut out),
             "Q8" => q8(&mut rng, &mut out),
             "QM" => qm(ctx, &mut rng, &mut out),
+            "QC" => qc(&mut rng, &mut out),
             _ => qb(ctx, &mut rng, &mut out),
         }
         out.violations.retain(|v| props.has(Props::id(v.prop)));
@@ -1560,4 +1561,153 @@ fn qm(ctx: &Ctx, rng: &mut Rng, out: &mut RunOut) {
             format!("{cfg:?}: {msg} at {loc}"),
         ));
     }
+}
+
+// ------------------------------------------------------------------------------------------
+// QC: class configurations whose class ids are not 0..n (C08: "its class is not configured").
+// 1-3 configured classes with ids drawn from 0..8 (ordered policy of the repository's zeroed
+// example, default = highest id); a short seeded history with configured classes builds state, calls
+// naming a class id that is not configured are mixed in: each must return the invalid-argument
+// error and leave counts, per-class statistics and the touched frames unchanged.
+
+fn qc(rng: &mut Rng, out: &mut RunOut) {
+    use llfree::{Class, Classing, Request};
+    let k = rng.range(1, 3);
+    let mut ids: Vec<u8> = Vec::new();
+    while ids.len() < k {
+        let c = rng.below(8) as u8;
+        if !ids.contains(&c) {
+            ids.push(c);
+        }
+    }
+    ids.sort();
+    let classes: Vec<(Class, usize)> = ids.iter().map(|&c| (Class(c), rng.range(0, 3))).collect();
+    let frames = crate::seq::gen_frames(rng, 3, false);
+    let classing = Classing::new(&classes, Class(*ids.last().unwrap()), ClassKind::Zeroed.policy());
+    let mut h = Hasher::default();
+    h.add(frames as u64);
+    h.add_bytes(format!("{classes:?}").as_bytes());
+    out.sample = J::obj()
+        .set("family", "QC")
+        .set("frames", frames)
+        .set("classes", format!("{classes:?}"))
+        .set("schedule", "single-thread");
+    bump(out, "sparse_class_configs", (ids.iter().enumerate().any(|(i, &c)| c as usize != i)) as u64);
+    let ms = LLFree::metadata_size(&classing, frames);
+    let init = if rng.chance(1, 3) { Init::AllocAll } else { Init::FreeAll };
+    let alloc = match guarded(|| LLFree::new(frames, init, &classing, MetaData::alloc(&ms))) {
+        Ok(Ok(a)) => a,
+        Ok(Err(e)) => {
+            out.violations.push(Violation::new("C09", "init-error", format!("LLFree::new({frames}, {classes:?}) returned {e:?}")));
+            return;
+        }
+        Err(Outcome::Panic { msg, loc }) => {
+            out.violations.push(Violation::new("C09", format!("init-{}", panic_signature(&msg, &loc)), format!("LLFree::new({frames}, {classes:?}) panicked: {msg} at {loc}")));
+            return;
+        }
+        Err(_) => return,
+    };
+    let unconfigured: Vec<u8> = (0u8..8).filter(|c| !ids.contains(c)).collect();
+    let mut held: Vec<(usize, usize)> = Vec::new();
+    if init == Init::AllocAll {
+        for hf in 0..frames / HUGE_FRAMES {
+            held.push((hf * HUGE_FRAMES, HUGE_ORDER));
+        }
+    }
+    let snapshot = |a: &LLFree, probe: usize| -> Option<String> {
+        guarded(|| {
+            let s = a.stats();
+            let t = a.tree_stats();
+            let f = a.stats_at(FrameId(probe.min(frames - 1)), 0);
+            format!("{} {} {t:?} {}", s.free_frames, s.free_huge, f.free_frames)
+        })
+        .ok()
+    };
+    let steps = rng.range(10, 40);
+    for step in 0..steps {
+        let order = *rng.pick(&[0usize, 0, 0, 1, 3, 6, HUGE_ORDER, HUGE_ORDER + 1]);
+        if rng.chance(1, 3) && !unconfigured.is_empty() {
+            // ---- a call naming a class that is not configured ----
+            let class = *rng.pick(&unconfigured);
+            let slot = if rng.chance(1, 2) { None } else { Some(rng.below(3)) };
+            let req = Request::new(order, Class(class), slot);
+            let span = (frames >> order).max(1);
+            let target = (rng.below(span) << order).min(frames - 1);
+            let before = snapshot(&alloc, target);
+            let what;
+            let res = match rng.below(3) {
+                0 => {
+                    what = format!("get(None, {req:?})");
+                    guarded(|| alloc.get(None, req).map(|_| ()))
+                }
+                1 => {
+                    what = format!("get(Some({target}), {req:?})");
+                    guarded(|| alloc.get(Some(FrameId(target)), req).map(|_| ()))
+                }
+                _ => {
+                    let (f, o) = if held.is_empty() { (target, order) } else { held[rng.below(held.len())] };
+                    let req = Request::new(o, Class(class), slot);
+                    what = format!("put({f}, {req:?})");
+                    guarded(|| alloc.put(FrameId(f), req))
+                }
+            };
+            bump(out, "fault_badarg_calls", 1);
+            h.add_bytes(what.as_bytes());
+            match res {
+                Ok(Err(Error::Argument)) => {
+                    if snapshot(&alloc, target) != before {
+                        out.violations.push(Violation::new(
+                            "C08",
+                            "rejected-call-changed-counters",
+                            format!("classes {classes:?}, step {step}: {what} was rejected but counts / statistics changed"),
+                        ));
+                        break;
+                    }
+                }
+                Ok(r) => {
+                    out.violations.push(Violation::new(
+                        "C08",
+                        "invalid-argument-not-rejected",
+                        format!("classes {classes:?} (class {class} is not configured), step {step}: {what} returned {r:?}"),
+                    ));
+                    break;
+                }
+                Err(Outcome::Panic { msg, loc }) => {
+                    out.violations.push(Violation::new(
+                        "C08",
+                        format!("invalid-argument-{}", panic_signature(&msg, &loc)),
+                        format!("classes {classes:?}, step {step}: {what} panicked: {msg} at {loc}"),
+                    ));
+                    break;
+                }
+                Err(_) => break,
+            }
+        } else {
+            // ---- a valid call with a configured class (builds state; not judged here) ----
+            let (class, n) = classes[rng.below(classes.len())];
+            let slot = if n == 0 || rng.chance(1, 3) { None } else { Some(rng.below(n)) };
+            let r = if held.is_empty() || rng.chance(3, 5) {
+                let order = order.min(TREE_ORDER);
+                if (1usize << order) > frames {
+                    continue;
+                }
+                guarded(|| alloc.get(None, Request::new(order, class, slot)).map(|(f, _)| held.push((f.0, order))))
+            } else if rng.chance(1, 8) {
+                guarded(|| {
+                    alloc.drain();
+                    Ok(())
+                })
+            } else {
+                let (f, o) = held.swap_remove(rng.below(held.len()));
+                guarded(|| alloc.put(FrameId(f), Request::new(o, class, slot)))
+            };
+            bump(out, "calls", 1);
+            if r.is_err() {
+                break; // a panic on a valid call is C09's business
+            }
+        }
+    }
+    h.add(held.len() as u64);
+    out.hash = h.finish();
+    out.nontrivial = true;
 }
